@@ -115,6 +115,7 @@ class Variants:
   shards_plus_one = False
   svc_skip_nan = False
   inram_filters = False
+  inram_all_tied = True
 
 
 def identify_pareto_variants(c, V):
@@ -555,7 +556,12 @@ def run_inram_case(case):
   return stored, got
 
 
-def inram_request(case, stored, filt):
+INRAM_TIE_WITNESS = {'objs': [('m0', 'MAXIMIZE')], 'safety': [], 'count': None,
+                     'trials': [{'kind': 'completed', 'final': [['m0', 5.0]]}, {'kind': 'completed', 'final': [['m0', 5.0]]},
+                                {'kind': 'completed', 'final': [['m0', 1.0]]}]}
+
+
+def inram_request(case, stored, filt, all_tied=True):
   # order embedding of THIS case's values into the integers (the model only compares): ranks of the distinct finite
   # values (thresholds included), +-inf at the ends, NaN -> null
   vals = sorted(set([float(thr) for _, _, thr in case['safety']] +
@@ -565,7 +571,7 @@ def inram_request(case, stored, filt):
   def e(v):
     v = float(v)
     return None if v != v else BIG if v == INF else -BIG if v == -INF else rank[v]
-  return {'op': 'getbest', 'filterEligible': filt, 'objs': [[m, g] for m, g in case['objs']],
+  return {'op': 'getbest', 'filterEligible': filt, 'allTied': all_tied, 'objs': [[m, g] for m, g in case['objs']],
           'safety': [[m, g, e(thr)] for m, g, thr in case['safety']], 'count': case['count'],
           'trials': [{'id': t['id'], 'infeasible': t['infeasible'],
                       'final': None if t['final'] is None else [[k, e(v)] for k, v in t['final']]} for t in stored]}
@@ -583,13 +589,21 @@ def inram_stage(c, V, n):
   if not V.inram_filters:
     c.prop_fail(KEY_INRAM_NAN if got == [] else 'inram-getbest-other', 'GetBestTrials returned %s for [unfinished trial 1, completed trial 2 = (1, 1)]; the optimal trials are [2]' % got,
                 {'case': canon_case(INRAM_WITNESS), 'real': got, 'definition': [2], 'witness_of': 'c11_inram_counterexample'})
+  # ... and with the witness of c11_inram_single_one_of_tied_counterexample (two trials attaining the best value)
+  _, got_tie = run_inram_case(INRAM_TIE_WITNESS)
+  V.inram_all_tied = (sorted(got_tie) == [1, 2])
+  c.flags['getBestReturnsAllTied'] = V.inram_all_tied
+  if not V.inram_all_tied:
+    c.prop_fail(KEY_INRAM_SINGLE_TIE if got_tie in ([1], [2]) else 'inram-getbest-other',
+                'GetBestTrials() on a single-objective study with trials 1 and 2 both attaining the best value 5 returned %s' % got_tie,
+                {'case': canon_case(INRAM_TIE_WITNESS), 'real': got_tie, 'definition': [1, 2], 'witness_of': 'c11_inram_single_one_of_tied_counterexample'})
   cases = [gen_inram_case(c.rng) for _ in range(n)]
   runs, reqs = [], []
   for case in cases:
     stored, got = run_inram_case(case)
     c.traces += 1
     runs.append((case, stored, got))
-    reqs.append(inram_request(case, stored, V.inram_filters))
+    reqs.append(inram_request(case, stored, V.inram_filters, V.inram_all_tied))
   models = c.lean('C11', reqs)
   for (case, stored, got), m in zip(runs, models):
     if 'error' in m:
@@ -628,10 +642,10 @@ def inram_stage(c, V, n):
         key = KEY_INRAM_INELIGIBLE if (same_labels and not V.inram_filters and (nan_row or ineligible_full)) else 'inram-getbest-other'
         c.prop_fail(key, 'GetBestTrials (single objective) returned %s, the optimal trials are %s' % (got, m['def']), cc)
       elif sorted(got) != sorted(m['def']):
-        key = KEY_INRAM_SINGLE_TIE if (len(got) == 1 and len(m['def']) > 1) else 'inram-getbest-other'
+        key = KEY_INRAM_SINGLE_TIE if (len(got) == 1 and len(m['def']) > 1 and not V.inram_all_tied) else 'inram-getbest-other'
         c.prop_fail(key, 'GetBestTrials (single objective) returned %s of the tied optimal trials %s' % (got, m['def']), cc)
       # tie: numpy breaks ties arbitrarily; compare the label of what was returned
-      if not same_labels:
+      if not same_labels or len(got) != len(m['model']):
         c.tie_break('InRamPolicySupporter.GetBestTrials (single objective)', cc, got, m['model'])
   c.sample({'getbest': canon_case(runs[-1][0]), 'real': runs[-1][2], 'definition': models[-1]['def']})
 
